@@ -52,6 +52,73 @@ def exact(values) -> list[Fraction]:
     return [Fraction(float(v)) for v in values]
 
 
+DTYPES = {"float64": torch.float64, "float32": torch.float32, "bfloat16": torch.bfloat16, "float16": torch.float16}
+
+
+def allowance(scn: dict, dt) -> list[float]:
+    """Per coordinate: units * eps(dtype) * sum_r |J_rc| (spec/GradDrop.tla, AllowUnits)."""
+    eps = float(torch.finfo(dt).eps)
+    return [scn["units"] * eps * a for a in scn["absum"]]
+
+
+def near(x: float, q: Fraction, tol: float) -> bool:
+    return abs(Fraction(x) - q) <= Fraction(tol)
+
+
+def forced_call(A, scn: dict, dt, variant: int):
+    """A(J) in dtype dt with the draw forced to the scripted sign choice; (output, forced?)"""
+    J = torch.tensor(scn["J"], dtype=dt)
+    n = J.shape[1]
+    us = forced_u(scn, variant)
+
+    def script(shape, *a, _us=us, **kw):
+        if tuple(shape) != (n,):
+            return None
+        return torch.tensor(_us, dtype=torch.float64).to(kw.get("dtype", torch.float64))
+    with Interpose("rand", [script]) as ip:
+        out = A(J)
+    return out, (len(ip.calls) == 1 and ip.unscripted == 0), us
+
+
+def replay_history(item) -> dict:
+    """ONE GradDrop object (leak given in float64, as the exact rationals of the scenario rounded once) called on
+    the scenario's matrix in the dtypes of one of the model's dtype histories, the draw forced each time.  Every
+    call is judged on its own against the exact coordinates of the specification within the allowance of ITS
+    dtype: what was aggregated before - and in which precision - is no part of the expected value."""
+    scn, idx = item
+    hists = scn["hist"]
+    hist = hists[idx % len(hists)]
+    leak = [fr(p) for p in scn["leak"]]
+    expected = [fr(p) for p in scn["out"]]
+    cands = [{fr(p) for p in cs} for cs in scn["cand"]]
+    n = len(expected)
+    v = {"idx": idx, "status": "ok", "hist": hist, "calls": 0, "other_sign": 0}
+    try:
+        A = make_graddrop(scn["f"], leak)
+        for k, dname in enumerate(hist):
+            dt = DTYPES[dname]
+            out, forced, us = forced_call(A, scn, dt, 0)       # variant 0: the draw is far from f(P) in every dtype
+            v["calls"] += 1
+            if out.dtype != dt or tuple(out.shape) != (n,):
+                v.update(status="outside", pos=k, dtype=dname, cols=list(range(n)), float_out=out.tolist(),
+                         why=f"output of dtype {out.dtype} and shape {tuple(out.shape)}")
+                return v
+            vals = [float(x) for x in out.tolist()]
+            tol = allowance(scn, dt)
+            if all(near(vals[c], expected[c], tol[c]) for c in range(n)):
+                continue
+            outside = [c for c in range(n) if not any(near(vals[c], q, tol[c]) for q in cands[c])]
+            if not outside:
+                v["other_sign"] += 1                           # the other member of the pair: the low-precision f(P)
+                continue                                       # fell on the other side of the draw; not judged here
+            v.update(status="outside", pos=k, dtype=dname, cols=outside, float_out=vals, forced=forced, u=us,
+                     tol=[tol[c] for c in outside])
+            return v
+    except Exception as e:                                   # noqa: BLE001
+        v.update(status="raised", what=f"{type(e).__name__}: {str(e)[:200]}")
+    return v
+
+
 def replay_scenario(item) -> dict:
     scn, idx = item
     J = torch.tensor(scn["J"], dtype=torch.float64)
@@ -77,11 +144,20 @@ def replay_scenario(item) -> dict:
         got = exact(out.tolist())
         forced = len(ip.calls) == 1 and ip.unscripted == 0
         v.update(forced=forced, got=[[g.numerator, g.denominator] for g in got], float_out=out.tolist(), u=us)
-        if got == expected:
-            continue
-        outside = [c for c in range(n) if got[c] not in cands[c]]
+        if scn.get("dyadic", True):                          # every operation is exact in float64: equality
+            if got == expected:
+                continue
+            outside = [c for c in range(n) if got[c] not in cands[c]]
+            wrong = [c for c in range(n) if got[c] != expected[c]]
+        else:                                                # non-dyadic leak: the allowance derived in the model
+            tol = allowance(scn, torch.float64)
+            vals = out.tolist()
+            wrong = [c for c in range(n) if not near(vals[c], expected[c], tol[c])]
+            if not wrong:
+                continue
+            outside = [c for c in range(n) if not any(near(vals[c], q, tol[c]) for q in cands[c])]
         v["status"] = "outside" if outside else "wrong_sign"
-        v["cols"] = outside or [c for c in range(n) if got[c] != expected[c]]
+        v["cols"] = outside or wrong
         return v
     return v
 
@@ -129,8 +205,14 @@ def observe_call(ep_id: int, J, leak, kind: str, s: int, observe: bool) -> dict:
             A = GradDrop() if f is None else GradDrop(f=f)
         else:
             A = make_graddrop(kind, leak)
-        torch.manual_seed(s)
         Jt = torch.tensor(J, dtype=torch.float64)
+        # call history (spec/GradDrop.tla, Recall): in two episodes out of three the SAME object has first aggregated the
+        # matrix in a lower precision; the logged float64 call must be what a fresh object returns
+        prior = [None, "float32", "bfloat16"][s % 3]           # a function of the episode's seed: replays repeat it
+        if prior:
+            A(Jt.to(DTYPES[prior]))
+            ep["prior"] = prior
+        torch.manual_seed(s)
         if observe:
             with Interpose("rand") as ip:
                 out = A(Jt)
